@@ -23,6 +23,8 @@ def c18(tier):
     nl.nl1(P, C)
     # 'releases every resource exactly once': the FITS handle of a refused or failed read is closed on every path
     ed.rh1(P, C)
+    # splinetable_free deletes the table, whose destructor releases through clear(): full field coverage, no early exit (TS-4/TS-6)
+    ts.reset_fn_ok(P, C)
     ed.ed4(P, C)
     C.extra["units"] = sorted(P.units.keys())
     C.extra["functions_analysed"] = len(P.functions)
@@ -111,6 +113,7 @@ def c20(tier):
     P = core.load(tier=tier, extra_units=selftest.UNITS)
     selftest.run(P, C, ('ts2', 'nl1'))
     ts.run_c20(P, C)
+    ts.ts7(P, C)
     nl.nl1(P, C)
     nl.nl2(P, C)
     # invalid arguments of convolve are refused before anything is read or changed
